@@ -7,7 +7,7 @@ import time
 import warnings
 
 RULES = ['thirds', 'thirds_inv', 'triads', 'triads_inv', 'tetrads', 'tetrads_inv', 'root', 'mirex', 'majmin', 'majmin_inv', 'sevenths', 'sevenths_inv']
-LABELS = ['C:maj', 'G:maj', 'A:min/b3', 'F:maj/5', 'N', 'C:7', 'D:min7', 'G:maj', 'E:sus4', 'Bb:maj7/3', 'X', 'A:min']
+LABELS = ['C:maj', 'G:maj', 'A:min/b3', 'F:maj/5', 'N', 'C:7', 'D:min7', 'G:maj', 'E:sus4', 'Bb:maj7/3', 'X', 'A:min', 'C:maj', 'B:min']
 
 
 def annotation(rng, start, end):
@@ -19,6 +19,19 @@ def annotation(rng, start, end):
         l = rng.choice(LABELS)
         labs.append(l)
     return iv, labs
+
+
+SHARP = ['C', 'C#', 'D', 'D#', 'E', 'F', 'F#', 'G', 'G#', 'A', 'A#', 'B']
+PC = {'C': 0, 'D': 2, 'E': 4, 'F': 5, 'G': 7, 'A': 9, 'B': 11}
+
+
+def transpose(label, t):
+    if label in ('N', 'X'):
+        return label
+    root = label.split(':')[0].split('/')[0]
+    rest = label[len(root):]
+    pc = (PC[root[0]] + root.count('#') - root.count('b') + t) % 12
+    return SHARP[pc] + rest
 
 
 def label_at(iv, labs, t):
@@ -34,7 +47,10 @@ def run(prop, tier, seed, known):
     import numpy as np
     from mir_eval import chord
     rng = random.Random(seed)
-    fails, n = [], 0
+    from ._tag import Fails
+    fails = Fails(prop, (('time shift', ('C08',)), ('joint transposition', ('C09',)), ('swap of reference', ('C06',)), ('duration-weighted mean', ('C12', 'C04')),
+                         ('is cut at', ('C12',)), ('raised', ('C14', 'C12'))))
+    n = 0
     t0 = time.time()
     cache = {}
 
@@ -91,6 +107,23 @@ def run(prop, tier, seed, known):
                     fails.append('chord.evaluate[%r] = %r, the duration-weighted mean over the reference span is %r (ref %s %s, est %s %s)'
                                  % (rule, float(got[rule]), want[rule], ri, rl, ei, el))
                     break
+            # C08: a common time offset changes no score; C09: neither does a joint transposition of every label; C06: exchanging the two
+            # annotations exchanges over- and under-segmentation and keeps seg (evaluated on annotations covering the same span)
+            d = rng.choice([0.25, 1.0, 2.5])
+            gs = chord.evaluate(np.array(ri) + d, rl, np.array(ei) + d, el)
+            bad = [k for k in got if abs(got[k] - gs[k]) > 1e-9]
+            if bad:
+                fails.append('chord.evaluate[%r] changes under a common time shift of %s: %r vs %r (ref %s %s, est %s %s)' % (bad[0], d, float(got[bad[0]]), float(gs[bad[0]]), ri, rl, ei, el))
+            tsp = rng.randint(1, 11)
+            gt = chord.evaluate(np.array(ri), [transpose(l, tsp) for l in rl], np.array(ei), [transpose(l, tsp) for l in el])
+            bad = [k for k in got if abs(got[k] - gt[k]) > 1e-9]
+            if bad:
+                fails.append('chord.evaluate[%r] changes under a joint transposition by %d semitones: %r vs %r (ref %s %s, est %s %s)' % (bad[0], tsp, float(got[bad[0]]), float(gt[bad[0]]), ri, rl, ei, el))
+            if r0 == e0 and r1 == e1:
+                gw = chord.evaluate(np.array(ei), el, np.array(ri), rl)
+                if abs(got['overseg'] - gw['underseg']) > 1e-9 or abs(got['underseg'] - gw['overseg']) > 1e-9 or abs(got['seg'] - gw['seg']) > 1e-9:
+                    fails.append('chord.evaluate: swap of reference and estimate does not exchange over- and under-segmentation: %s vs %s (ref %s %s, est %s %s)' % (
+                        (float(got['overseg']), float(got['underseg']), float(got['seg'])), (float(gw['overseg']), float(gw['underseg']), float(gw['seg'])), ri, rl, ei, el))
             for side in ('reference', 'estimate'):
                 sp = split(ri, rl) if side == 'reference' else split(ei, el)
                 if sp is None:
